@@ -12,7 +12,7 @@
    iteration enters as oracles (any function returning a permutation of its argument):
    sigma for the alias map, sigma_h for the headers map, sigma_d for the map argument. *)
 From Coq Require Import String Ascii List Bool Arith ZArith Permutation Sorted.
-From Shoot Require Import Base.Str Model.Directive Model.Rest Model.RestSpec
+From Shoot Require Import Base.Str Model.Directive Model.Rest Model.RestSpec Model.RestStd
      Proofs.RestBase Proofs.RestProofs Proofs.RestExamples Proofs.RestParse.
 Import ListNotations.
 Local Open Scope string_scope.
@@ -55,8 +55,9 @@ Print Assumptions C06_canonical_directive_parses.
 Theorem C06_linked_for_canonical_rendering :
   forall E m v quoted ts al ps,
   directive_ok v quoted ts al = true ->
+  env_ok E = true ->
   md_doc m = Some (canonical_doc v quoted ts al) ->
-  typed_params E m = map (fun pk => (fst pk, Some (snd pk))) ps ->
+  typed_params E (upper v) m = map (fun pk => (fst pk, Some (snd pk))) ps ->
   linked E m {| s_verb := upper v; s_toks := ts; s_alias := al; s_params := ps |}.
 Proof. exact canonical_linked. Qed.
 Print Assumptions C06_linked_for_canonical_rendering.
@@ -65,8 +66,9 @@ Theorem C06_request_for_canonical_rendering :
   forall fmt_v join_path json_marshal url_query sigma_d (sigma sigma_h : oracle) E I m v quoted ts al ps base args,
   is_oracle sigma -> is_oracle sigma_h ->
   directive_ok v quoted ts al = true ->
+  env_ok E = true ->
   md_doc m = Some (canonical_doc v quoted ts al) ->
-  typed_params E m = map (fun pk => (fst pk, Some (snd pk))) ps ->
+  typed_params E (upper v) m = map (fun pk => (fst pk, Some (snd pk))) ps ->
   wf_mspec {| s_verb := upper v; s_toks := ts; s_alias := al; s_params := ps |} = true ->
   args_in_guard fmt_v {| s_verb := upper v; s_toks := ts; s_alias := al; s_params := ps |} args = true ->
   exists d, cook_method sigma E m = COk d /\
@@ -289,3 +291,23 @@ Proof. exact second_map_refused. Qed.
 Example C06_fixed_K_rest_header_value_trim :
   parse_headers (doc_lines ["shoot: headers={Accept:*/*},{X-Sig: (a)}"]) = [("Accept", "*/*"); ("X-Sig", "(a)")].
 Proof. exact header_value_kept. Qed.
+
+(* K_rest_path_percent (open): the generated code does not url.PathEscape the argument text.  With the
+   reference instance of url.JoinPath (Model/RestStd.v join_decoded, compared with the real function on
+   every run) a well-typed call inside the grammar whose path argument is ".." is sent to the base path;
+   path_text_safe in args_in_guard excludes exactly the texts that JoinPath unescapes, cleans or drops *)
+Theorem C06_refuted_K_rest_path_percent :
+  linked E0 m_get s_get /\ wf_mspec s_get = true /\ args_typed s_get a_get_dots = true /\
+  exists d r, cook_method ido E0 m_get = COk d /\
+    exec fmt_demo (fun b p => Some (join_decoded b p)) json_demo noq idd (default_headers "GET") d "/api" a_get_dots = OSent r /\
+    rq_path r = "/users/.." /\ rq_url r = "/api" /\ join_plain "/api" (rq_path r) = "/api/users/..".
+Proof. exact refuted_path_unescaped. Qed.
+Print Assumptions C06_refuted_K_rest_path_percent.
+
+(* repaired in the review round *)
+Example C06_fixed_K_rest_unnamed_param : cook_method ido E0 m_unnamed = CFatal "parameters must be named".
+Proof. exact unnamed_param_refused. Qed.
+Example C06_fixed_K_rest_ptr_path_param : cook_method ido E0 m_ptrpath = CFatal "a path parameter must not be a pointer".
+Proof. exact ptr_path_param_refused. Qed.
+Example C06_example_qualified_scalar : linked E_time m_dur s_dur /\ wf_mspec s_dur = true.
+Proof. exact ex_dur_linked. Qed.
